@@ -142,6 +142,7 @@ func (ctx *Context) IsCalculateExists() bool {
 
 func (ctx *Context) RunAfterParsed() error {
 	ctx.IsComputedLoaded = false
+	ctx.detailCache = "" // 同一段已解析的代码可以多次执行，计算过程要跟着每次执行的结果走
 	// 以下为eval
 	ctx.evaluate()
 	if ctx.Error != nil {
